@@ -1,11 +1,46 @@
 """C03 — kernel property: see DESIGN.md section 5 and harness/kprop.py."""
-from harness import kgen, kprop
+from harness import common, kgen, kprop
 
 PID = 'C03'
 
 
+def gen_mixed_bulk_case(rng):
+    """bulk writes (extend / update / += / whole-collection assignment) whose argument holds conforming values FIRST and a
+    non-conforming value of the same Python class AFTER them (an enumeration literal of another enumeration, the name
+    of no literal, an object of a class outside the hierarchy): the whole call must be refused"""
+    t = rng.choice(['aes', 'aes', 'aes', 'ains', 'ainl', 'asl', 'rn', 'rl', 'rbag', 'pnn', 'cn', 'snn'])
+    mm = kgen.make_mm([t])
+    objs = ['A', 'B', 'B', 'B', 'B', 'A', 'A2']
+    ff = kgen.flat_features(mm)
+    cands = [(o, fi) for o in range(len(objs)) for fi in kgen.applicable(mm, objs[o]) if ff[fi][1]['many']]
+    o, fi = rng.choice(cands)
+    fd = ff[fi][1]
+    hist = []
+    for _ in range(rng.randrange(0, 3)):
+        hist.append(['append', o, fi, kgen.conforming_values(mm, objs, fd, rng, False)])
+    for _ in range(rng.randrange(1, 4)):
+        goods = [kgen.conforming_values(mm, objs, fd, rng, False) for _ in range(rng.randrange(1, 4))]
+        bad = None
+        for _try in range(12):       # prefer a bad value with the tag (Python class) of one of the good ones
+            b = kgen.conforming_values(mm, objs, fd, rng, True)
+            if b is not None and any(g is not None and g[0] == b[0] for g in goods):
+                bad = b
+                break
+            bad = bad or b
+        vals = goods + ([bad] if bad is not None and rng.random() < 0.8 else []) + \
+            ([kgen.conforming_values(mm, objs, fd, rng, False)] if rng.random() < 0.3 else [])
+        k = rng.choice(['extend', 'iadd', 'assign'] + (['update'] if fd['unique'] else []))
+        hist.append([k, o, fi, [v for v in vals if v is not None]])
+        if rng.random() < 0.4:
+            hist.append(['read', o, fi, 'attr'])
+    return {'mm': mm, 'templates': [t], 'objs': objs, 'nres': 0, 'strings': kgen.STRINGS, 'history': hist}
+
+
 def run(ctx, out):
-    kprop.run(ctx, out, PID, ['C03'], {'outcome','values','isset'}, 2000, 40000, pool=None, weights={'res':0.02,'delete':0.02}, p_wrong=0.3)
+    rng = common.rng_for(ctx.seed, 'C03:mixedbulk')
+    extra = [gen_mixed_bulk_case(rng) for _ in range(300 if ctx.tier != 'thorough' else 6000)]
+    kprop.run(ctx, out, PID, ['C03'], {'outcome','values','isset'}, 2000, 40000, pool=None, weights={'res':0.02,'delete':0.02}, p_wrong=0.3,
+              extra_cases=extra)
 
 
 def replay(ctx, rep):
@@ -162,7 +197,7 @@ MANY_PATHS = ['append', 'extend', 'insert', 'iadd', 'assign', 'setitem']
 ONE_PATHS = ['attr', 'eSet', 'eSetFeature']
 
 
-def asym_scenarios(ctx, out):
+def asym_scenarios(ctx, out, pid='C03'):
     """bidirectional references whose far end is typed by a SUBCLASS of the class declaring the near end
     (legal Ecore: the opposite is an inherited feature of the far end's type).  A store through the near end
     by an owner the far end cannot hold must raise BadValueError and change nothing; no slot may ever show
@@ -170,13 +205,14 @@ def asym_scenarios(ctx, out):
     from harness import common
     common.use_repo()
     from pyecore import ecore as E
-    rng = common.rng_for(ctx.seed, 'C03:asym')
+    rng = common.rng_for(ctx.seed, f'{pid}:asym')
     n = 40 if ctx.tier != 'thorough' else 600
     cnt = rej = 0
     for it in range(n):
         near_many = rng.random() < 0.5
         far_many = rng.random() < 0.6
-        unique = rng.random() < 0.6
+        unique = True       # many-valued ends of a bidirectional reference are unique (EMF's rule; wf_mm)
+        rng.random()
         cont = rng.choice([None, None, 'far']) if not near_many else None   # far end containment => near end is the container end
         Node = E.EClass('Node')
         File = E.EClass('File', superclass=(Node,))
@@ -205,11 +241,32 @@ def asym_scenarios(ctx, out):
             path = rng.choice(MANY_PATHS if many else ONE_PATHS)
             before = _dump(objs, feats)
             raised = _store(E, obj, fname, many, path, v)
+            reps = 0
+            while not ok and raised == 'BadValueError' and reps < 2 and _dump(objs, feats) == before:
+                # a refused call is refused again, however often it is repeated on the same slot
+                reps += 1
+                raised = _store(E, obj, fname, many, path, v)
             after = _dump(objs, feats)
-            hist.append([objs.index(obj), fname, path, objs.index(v), raised])
+            hist.append([objs.index(obj), fname, path, objs.index(v), raised] + ([f'x{reps + 1}'] if reps else []))
             cnt += 1
             case = {'scenario': 'asym', 'seed': ctx.seed, 'tier': ctx.tier, 'conf': conf, 'history': [list(h) for h in hist]}
-            sig = {'property': 'C03', 'clause': None, 'near_many': near_many, 'far_many': far_many}
+            sig = {'property': pid, 'clause': None, 'near_many': near_many, 'far_many': far_many}
+            # (0) the two ends agree, whatever happened
+            asym = None
+            for hi_, h in enumerate(objs):
+                if classes[hi_] != 'Holder':
+                    continue
+                hf = list(h.far) if far_many else ([h.far] if h.far is not None else [])
+                for ni_, nd in enumerate(objs):
+                    if classes[ni_] == 'Holder':
+                        continue
+                    nn = list(nd.near) if near_many else ([nd.near] if nd.near is not None else [])
+                    if (nd in hf) != (h in nn):
+                        asym = f'obj{ni_} in obj{hi_}.far is {nd in hf} but obj{hi_} in obj{ni_}.near is {h in nn}'
+            if asym:
+                sig['clause'] = 'ends-disagree'
+                out.fail(sig, f'after {hist[-1]} (raised: {raised}): {asym}', case)
+                break
             # (1) nothing outside its type, anywhere
             for i, o in enumerate(objs):
                 if classes[i] == 'Holder':
